@@ -72,7 +72,7 @@ CHECKS.update({
 
 CHECKS.update({
     "C04": ("simquic+sched", "reference control/uni-stream automaton + effect-history runtime monitor: a raw peer plays unidirectional stream scripts (types, varint forms, control frame sequences, FIN/RESET points) against the real endpoint under stream-credit shortage, back-pressure and a stalled grease stream; close code, driver result and GOAWAY effects compared",
-            "All control frame sequences up to length 3 x endings x roles are played completely, plus sampled multi-stream scripts, GOAWAY effect traces and credit/back-pressure modes; the observed connection error must be one some processing order can raise first (or none), and GOAWAY effects must appear exactly when sent. Held-on-observed.",
+            "All control frame sequences up to length 3 x endings (open, FIN, RESET, FIN inside a frame) x roles are played completely, plus sampled multi-stream scripts, GOAWAY effect traces and credit/back-pressure modes; the observed connection error must be one some processing order can raise first (or none), and GOAWAY effects must appear exactly when sent. Held-on-observed.",
             "Trusts the automaton in props/c04.rs; overlapping rules accept any applicable code; push streams, CANCEL_PUSH to a client and QPACK stream closure are don't-care; a server whose accept() returned None legitimately stops processing.",
             "DESIGN.md §4 C04"),
 })
@@ -101,13 +101,13 @@ CHECKS.update({
             "Trusts the reference parser and the simulator's event times; streams the application never pulled carry no obligation.",
             "DESIGN.md §4 C08"),
     "C09": ("simquic+sched", "handle-liveness history checker with quiescence-based bounded-progress oracle: endings alphabet^k x GOAWAY position enumerated, the harness owns and logs every handle drop; accept() returning None is checked against live handles, accept() pending at quiescence against 'GOAWAY delivered and all handles gone'",
-            "All histories of <= 2 (quick) / <= 3 (thorough) requests over the 8 endings x every GOAWAY position are run (3 schedules each) plus sampled longer ones, with both accept APIs, shuffled release order, the server's own shutdown, and worker-pool bursts of up to 71 requests in progress at once whose endings all fall between two polls of accept(). Safety and bounded progress are decided on the totally ordered event log and at executor quiescence, not on wall-clock. Held-on-observed.",
+            "All histories of <= 2 (quick) / <= 3 (thorough) requests over the 8 endings x every GOAWAY position are run (3 schedules each) plus sampled longer ones, with both accept APIs, shuffled release order, the server's own shutdown, a repeated GOAWAY, handles kept after finish(), and worker-pool bursts of up to 71 requests in progress at once whose endings all fall between two polls of accept(). Safety and bounded progress are decided on the totally ordered event log and at executor quiescence, not on wall-clock. Held-on-observed.",
             "Trusts the simulator's quiescence detection; QPACK failures excluded (connection errors).",
             "DESIGN.md §4 C09"),
 })
 
 CHECKS.update({
-    "C17": ("quinnrig", "byte-conservation / identifier / error-mapping runtime monitor over real Quinn loopback connections: the h3_quinn adapter is driven through the h3::quic traits against a raw quinn peer with flow-control windows swept from 1 byte to 1 MiB (arbitrary partial writes), premature second writes, an id-query state matrix incl. pending and abandoned reads, peer close/reset/stop/timeout with code sets; unframed writes (poll_send) for conservation and error classes, and an unframed write behind a frame that send_data accepted but has not finished (refused, or strictly behind it - never inside); AddressSanitizer build in the thorough tier",
+    "C17": ("quinnrig", "byte-conservation / identifier / error-mapping runtime monitor over real Quinn loopback connections: the h3_quinn adapter is driven through the h3::quic traits against a raw quinn peer with flow-control windows swept from 1 byte to 1 MiB (arbitrary partial writes), premature second writes, an id-query state matrix incl. pending and abandoned reads, peer close/reset/stop/timeout with code sets; unframed writes (poll_send) for conservation and error classes, and an unframed write behind a frame that send_data accepted but has not finished (refused, or strictly behind it - never inside); h3's BufRecvStream on top of the adapter (look-ahead poll_read, take_chunk, poll_data, futures/tokio AsyncRead, split) incl. over a UDP relay that loses or swaps datagrams; AddressSanitizer build in the thorough tier",
             "66 (quick) / ~3000 (thorough) real connections; the raw peer's received byte string must equal the reference-encoded frames of every accepted send_data exactly once and in order, premature writes must be refused, send_id/recv_id must equal Quinn's id in all 14 read/write states without panicking, and peer conditions must map to the right h3 error class with the code preserved. Wall-clock is a watchdog only (inconclusive). Held-on-observed.",
             "Real sockets: evaluation counts vary slightly between runs; scenarios hit by Quinn/loopback trouble are discarded (inconclusive above 2 %); trusts quinn 0.11's own ids and the reference frame encoder.",
             "DESIGN.md §4 C17"),
